@@ -240,10 +240,19 @@ def w_files(cfg, tier):
     with eng:
         kinds_v = [eng.integer(f'kind{i}', 0, len(FILE_KINDS) - 1) for i in range(npaths)]
         perm_v = eng.integer('order', 0, len(perms) - 1)
+        warm_v = eng.integer('another_analysis_first', 0, 1)
 
-        def fn():
-            kinds = [FILE_KINDS[int(v)] for v in kinds_v]
-            order = perms[int(perm_v)]
+        def analyse(kinds, order, warm):
+            """One real Analysis on a fresh temporary layout; warm=True: another Analysis object (other data,
+            other directory) is created and evaluated first in the same process."""
+            if warm:
+                other = tempfile.mkdtemp(prefix='c15other_')
+                try:
+                    rec2 = [[mk_entry(4, k, 0.1, 'x'), mk_entry(2, k, 0.3, 'x')]]
+                    p2 = write_layout(other, [FILE_KINDS[0]], (0,), rec2)
+                    an.Analysis(p2[0], verbose=False).get_results()
+                finally:
+                    shutil.rmtree(other, ignore_errors=True)
             root = tempfile.mkdtemp(prefix='c15files_')
             try:
                 paths = write_layout(root, kinds, order, records)
@@ -253,9 +262,16 @@ def w_files(cfg, tier):
                        for _, r_ in df.iterrows()}
             finally:
                 shutil.rmtree(root, ignore_errors=True)
+            return got
+
+        def fn():
+            kinds = [FILE_KINDS[int(v)] for v in kinds_v]
+            order = perms[int(perm_v)]
+            warm = bool(int(warm_v))
+            got = hz.in_forked_child(lambda: analyse(kinds, order, warm))
             ok = all(rate in got and got[rate][0] == raw[rate][0] and got[rate][1] == raw[rate][1] and
                      abs(got[rate][2] - raw[rate][1] / raw[rate][0]) < 1e-12 for rate in raw) and len(got) == 2
-            return ok, dict(kinds=kinds, order=list(order), got={str(k_): v for k_, v in got.items()})
+            return ok, dict(kinds=kinds, order=list(order), warm=warm, got={str(k_): v for k_, v in got.items()})
         ps = eng.explore(fn)
     col.absorb(eng)
     bad = []
@@ -271,7 +287,7 @@ def w_files(cfg, tier):
         if not ok and w[0] is None:
             w[0] = dict(info, npaths=npaths, layout='files')
     col.prove('C15/files/pooled-counts-independent-of-container-layout-and-path-order', eng.base, z3_or(bad),
-              lambda m: w[0], f'{len(ps)} realised layouts: {npaths} paths x container kinds {FILE_KINDS} x path orders; '
+              lambda m: w[0], f'{len(ps)} realised layouts: {npaths} paths x container kinds {FILE_KINDS} x path orders x (fresh process | another Analysis evaluated first), one forked process each; '
               f'pooled raw counts {raw}')
     return col.result()
 
